@@ -69,7 +69,7 @@ type scenario struct {
 	rpc          string // mux/unknown: the rpc name
 	out          string // mux/unary: nil | tnil | ok:<spec> | err:<chain>
 	nrecv        int    // MsgRecv calls made by the client (Invoke: 1)
-	manualFlush  bool   // ManualFlush client with an unflushed message (regression for fix 56786c9)
+	manualFlush  bool   // ManualFlush client with an unflushed message (regression for fix 5e78564)
 	wantCode     uint64 // code attached by the generator (direct oracle)
 	depth        int    // wrappers above it as seen by drpcerr.Code on the server
 	class        string
